@@ -229,6 +229,19 @@ def assigns_table(tree, cname, mname):
     return out
 
 
+def decorators_table(trees):
+    """decorator lists of every `__call__` / `prox` / `conj_prox` / `_call_*` / `_prox_*` method of the modelled files (a decorator such
+    as `jax.jit` with `self` static freezes attribute values at the first trace)"""
+    out = []
+    for tree in trees:
+        for n in tree.body:
+            if isinstance(n, ast.ClassDef):
+                for f in n.body:
+                    if isinstance(f, ast.FunctionDef) and (f.name in ("__call__", "prox", "conj_prox") or f.name.startswith(("_call", "_prox"))):
+                        out.append((f"{n.name}.{f.name}", [ast.unparse(d) for d in f.decorator_list]))
+    return out
+
+
 def prox_classes(trees):
     return [n.name for tree in trees for n in tree.body if isinstance(n, ast.ClassDef) and find_method(n, "prox") is not None]
 
@@ -257,6 +270,7 @@ def read_tables(repo: Path | None = None):
                                   {"__call__", "_call_sep", "_call_nonsep", "_l2norm", "prox", "conj_prox"})
                     + returns_table([src["metric"]], {"metric"}))
     t["assigns"] = assigns_table(src["loss"], "SquaredL2Loss", "prox") + assigns_table(src["loss"], "SquaredL2Loss", "hessian")
+    t["decorators"] = decorators_table([src["functional"], src["loss"], src["norm"], src["indicator"], src["dist"], src["tv"], src["proxavg"]])
     t["prox_classes"] = prox_classes([src["functional"], src["loss"]])
     t["loss_classes"] = loss_classes(src["loss"])
     return t
@@ -281,6 +295,7 @@ def render(t):
     L.append("def raises : List (String × List String) :=\n  [" + ",\n   ".join(f"({lstr(a)}, [{', '.join(lstr(x) for x in b)}])" for a, b in t["raises"]) + "]\n")
     L.append("def returns : List (String × List String) :=\n  [" + ",\n   ".join(f"({lstr(a)}, [{', '.join(lstr(x) for x in b)}])" for a, b in t["returns"]) + "]\n")
     L.append("def assigns : List (String × String × String) :=\n  [" + ",\n   ".join(f"({lstr(a)}, {lstr(b)}, {lstr(c)})" for a, b, c in t["assigns"]) + "]\n")
+    L.append("def decorators : List (String × List String) :=\n  [" + ",\n   ".join(f"({lstr(a)}, [{', '.join(lstr(x) for x in b)}])" for a, b in t["decorators"]) + "]\n")
     L.append("def proxClasses : List String := [" + ", ".join(lstr(x) for x in t["prox_classes"]) + "]")
     L.append("def lossClasses : List String := [" + ", ".join(lstr(x) for x in t["loss_classes"]) + "]\n")
     L.append("""/-- the constructors compute the flags the model assumes, on every valuation of the conditions they test -/
@@ -310,6 +325,10 @@ theorem raises_ok : subsetOf expectedRaises raises = true := by decide
     of the modelled classes and of the metrics, and the local formulas of `SquaredL2Loss.prox` / `hessian` -/
 theorem returns_ok : subsetOf expectedReturns returns = true := by decide +kernel
 theorem assigns_ok : subsetOf expectedAssigns assigns = true := by decide +kernel
+
+/-- the evaluation / prox methods carry exactly the pinned decorators (none, except the static / jitted leaf proxes): a new
+    decorator (e.g. `jax.jit` with `self` static, which freezes attribute values) breaks this obligation -/
+theorem decorators_ok : decorators = expectedDecorators := by decide +kernel
 
 /-- no other class of `_functional.py` / `loss.py` defines its own `prox`; the loss classes are the modelled ones -/
 theorem classes_ok : proxClasses = expectedProxClasses ∧ lossClasses = expectedLossClasses := by decide
@@ -366,6 +385,17 @@ def differing_rows(repo: Path | None = None):
         rows.add(a[0])
     for a in e["expectedDefaults"] - set(t["defaults"]):
         rows.add(a[0])
+    import re as _re
+
+    srcl = (common.LEAN_DIR / "Scico" / "Proofs" / "ProxCalcTables.lean").read_text()
+    blk = srcl[srcl.index("def expectedDecorators "):]
+    blk = blk[: blk.index("\n\n")]
+    expd = {m.group(1): _re.findall(r'"((?:[^"\\]|\\.)*)"', m.group(2))
+            for m in _re.finditer(r'\("((?:[^"\\]|\\.)*)", \[((?:"(?:[^"\\]|\\.)*"(?:, )?)*)\]\)', blk)}
+    gotd = dict(t["decorators"])
+    for k in set(expd) | set(gotd):
+        if expd.get(k) != gotd.get(k):
+            rows.add(k)
     gc = [(m, c, a, k) for m, c, a, k in t["calls"]]
     for c in e["expectedCalls"]:
         if c not in gc:
